@@ -367,6 +367,110 @@ theorem writes_disjoint_tetrahedra_frequencies_outer (ngp nb i i' : Nat) (hii : 
     rw [← Nat.mul_assoc, ← Nat.mul_assoc]; omega
   exact hii (radix_inj hj hj' hA).1
 
+/-! ### heap temporaries: every access below the allocated element count -/
+
+/-- distribute_fc2: `atom_list_reverse` (allocated with `num_pos` entries) is indexed by supercell atoms -/
+theorem temp_in_bounds_atom_list_reverse (npos len : Nat) (atomList mapAtoms : Nat → Nat)
+    (hal : ∀ i, i < len → atomList i < npos) (hma : ∀ a, a < npos → mapAtoms a < npos) :
+    (tAtomListReverse npos len atomList mapAtoms).InBounds := by
+  intro x hx
+  simp only [tAtomListReverse, mem_for1, List.mem_singleton] at hx
+  obtain ⟨i, hi, rfl⟩ := hx
+  exact hma _ (hal i hi)
+
+/-- and `len_atom_list` entries would not do: a done atom can have an index ≥ len(atom_list)
+(atom_list = p2s_map = [0, 8] of a 16-atom supercell) -/
+theorem temp_atom_list_reverse_needs_num_pos :
+    ¬ (∀ x ∈ (tAtomListReverse 16 2 (fun i => 8 * i) id).accesses, x < 2) := by decide
+
+/-- compact symmetriser: the `done` table -/
+theorem temp_in_bounds_done (ns np : Nat) (s2pp : Nat → Nat) (itrans : Nat → Nat → Nat)
+    (hs : ∀ j, j < ns → s2pp j < np) (ht : ∀ j ip, j < ns → ip < np → itrans j ip < ns) :
+    (tDone ns np s2pp itrans).InBounds := by
+  intro x hx
+  simp only [tDone, mem_for2, List.mem_cons, List.not_mem_nil, or_false] at hx
+  obtain ⟨j, hj, ip, hip, hx⟩ := hx
+  have b1 : ip * ns + j < np * ns := radix_lt hip hj
+  have b2 : s2pp j * ns + itrans j ip < np * ns := radix_lt (hs j hj) (ht j ip hj hip)
+  simp only [tDone]
+  rw [Nat.mul_comm ns np]
+  rcases hx with rfl | rfl <;> assumption
+
+theorem temp_in_bounds_charge_sum (np : Nat) : (tChargeSum np).InBounds := by
+  intro x hx
+  simp only [tChargeSum, mem_for2, List.mem_singleton] at hx
+  obtain ⟨i, hi, j, hj, a, ha, b, hb, rfl⟩ := hx
+  have b1 : i * np + j < np * np := radix_lt hi hj
+  have b2 : (i * np + j) * 9 + (a * 3 + b) < (np * np) * 9 := radix_lt b1 (by omega)
+  simp only [tChargeSum]; omega
+
+theorem temp_in_bounds_q_born (np : Nat) : (tQBorn np).InBounds := by
+  intro x hx
+  simp only [tQBorn, mem_for2, List.mem_singleton] at hx
+  obtain ⟨i, hi, j, hj, rfl⟩ := hx
+  simp only [tQBorn]; omega
+
+theorem temp_in_bounds_dnac (np : Nat) : (tDnac np).InBounds := by
+  intro x hx
+  simp only [tDnac, mem_for2, List.mem_singleton] at hx
+  obtain ⟨i, hi, j, hj, l, hl, m, hm, rfl⟩ := hx
+  have e : i * 9 * np + j * 9 + l * 3 + m = i * (np * 9) + (j * 9 + (l * 3 + m)) := by ring
+  have b1 : j * 9 + (l * 3 + m) < np * 9 := radix_lt hj (by omega)
+  have b2 : i * (np * 9) + (j * 9 + (l * 3 + m)) < np * (np * 9) := radix_lt hi b1
+  have e2 : np * np * 9 = np * (np * 9) := by ring
+  simp only [tDnac, e, e2]; exact b2
+
+theorem temp_in_bounds_ddnac (np : Nat) : (tDdnac np).InBounds := by
+  intro x hx
+  simp only [tDdnac, mem_for3, mem_for2, List.mem_singleton] at hx
+  obtain ⟨k, hk, i, hi, j, hj, l, hl, m, hm, rfl⟩ := hx
+  have e : k * np * np * 9 + i * 9 * np + j * 9 + l * 3 + m
+      = k * (np * (np * 9)) + (i * (np * 9) + (j * 9 + (l * 3 + m))) := by ring
+  have b1 : j * 9 + (l * 3 + m) < np * 9 := radix_lt hj (by omega)
+  have b2 : i * (np * 9) + (j * 9 + (l * 3 + m)) < np * (np * 9) := radix_lt hi b1
+  have b3 : k * (np * (np * 9)) + (i * (np * 9) + (j * 9 + (l * 3 + m))) < 3 * (np * (np * 9)) := radix_lt hk b2
+  have e2 : np * np * 27 = 3 * (np * (np * 9)) := by ring
+  simp only [tDdnac, e, e2]; exact b3
+
+theorem temp_in_bounds_dd_tmp (np : Nat) : (tDdTmp np).InBounds := by
+  intro x hx
+  simp only [tDdTmp, PLoop.all, mem_for1] at hx
+  obtain ⟨a, ha, hx⟩ := hx
+  exact writes_in_bounds_multiply_borns np a ha x hx
+
+theorem temp_in_bounds_KK (nG : Nat) : (tKK nG).InBounds := by
+  intro x hx
+  simp only [tKK, PLoop.all, mem_for1] at hx
+  obtain ⟨a, ha, hx⟩ := hx
+  exact writes_in_bounds_get_dd nG a ha x hx
+
+theorem temp_in_bounds_tp (nq nt : Nat) : (tTp nq nt).InBounds := by
+  intro x hx
+  simp only [tTp, List.mem_append, PLoop.all, mem_for1, mem_for2, List.mem_singleton] at hx
+  rcases hx with ⟨a, ha, hx⟩ | ⟨i, hi, j, hj, rfl⟩
+  · exact writes_in_bounds_thermal_properties nq nt a ha x hx
+  · have b : i * (nt * 3) + j < nq * (nt * 3) := radix_lt hi hj
+    rw [← Nat.mul_assoc, ← Nat.mul_assoc] at b
+    exact b
+
+theorem temp_in_bounds_gsv (nlp : Nat) : (tGsvLength nlp).InBounds ∧ (tGsvVec nlp).InBounds := by
+  constructor
+  · intro x hx; simpa [tGsvLength, mem_whole] using hx
+  · intro x hx
+    simp only [tGsvVec, mem_for2, List.mem_singleton] at hx
+    obtain ⟨k, hk, l, hl, rfl⟩ := hx
+    simp only [tGsvVec]; omega
+
+/-- tetrahedron DOS: `gp2ir` under the range facts of the grid tables -/
+theorem temp_in_bounds_gp2ir (ngp : Nat) (gmt : Nat → Nat) (neigh : List Nat)
+    (hg : ∀ i, i < ngp → gmt i < ngp) (hn : ∀ x ∈ neigh, x < ngp) : (tGp2ir ngp gmt neigh).InBounds := by
+  intro x hx
+  simp only [tGp2ir, List.mem_append, mem_for1, List.mem_cons, List.not_mem_nil, or_false] at hx
+  rcases hx with ⟨i, hi, rfl | rfl⟩ | hx
+  · exact hi
+  · exact hg i hi
+  · exact hn x hx
+
 /-! ### schedules -/
 
 /-- executing write-disjoint, own-cell-local iterations in any order of a permutation of
@@ -446,3 +550,15 @@ end PhononModel.C13
 #print axioms PhononModel.C13.schedule_free
 #print axioms PhononModel.C13.PLoop.schedule_free
 #print axioms PhononModel.C13.serial_reduction_order_free
+#print axioms PhononModel.C13.temp_in_bounds_atom_list_reverse
+#print axioms PhononModel.C13.temp_atom_list_reverse_needs_num_pos
+#print axioms PhononModel.C13.temp_in_bounds_done
+#print axioms PhononModel.C13.temp_in_bounds_charge_sum
+#print axioms PhononModel.C13.temp_in_bounds_q_born
+#print axioms PhononModel.C13.temp_in_bounds_dnac
+#print axioms PhononModel.C13.temp_in_bounds_ddnac
+#print axioms PhononModel.C13.temp_in_bounds_dd_tmp
+#print axioms PhononModel.C13.temp_in_bounds_KK
+#print axioms PhononModel.C13.temp_in_bounds_tp
+#print axioms PhononModel.C13.temp_in_bounds_gsv
+#print axioms PhononModel.C13.temp_in_bounds_gp2ir
